@@ -291,6 +291,13 @@ func (env *specEnv) evalBinary(x *EBinary) SVal {
 }
 
 func (env *specEnv) specEq(a, b SVal) Term {
+	// x % m == 0 is divisibility: (mod x m) = 0 (same truth value as Go's truncated remainder
+	// for m != 0, and much easier for the solvers than the sign-case definition of tmod)
+	if strings.HasPrefix(a.T.S, "(tmod ") && b.T.S == "0" {
+		body := a.T.S[len("(tmod ") : len(a.T.S)-1]
+		i := sexpEnd(body, 0)
+		return Term{"(= (mod " + strings.TrimSpace(body[:i]) + " " + strings.TrimSpace(body[i:]) + ") 0)", SBool}
+	}
 	if a.T.Sort == SSlice && b.T.S == "0" {
 		return eq(sBase(a.T), tZero)
 	}
